@@ -321,7 +321,15 @@ def drive(r, spec, respond="random", faults=None, max_steps=80):
                     parts = [msg[:c1], msg[c1:]]
                 else:
                     parts = [msg]
+                lost = False
                 for pi, part in enumerate(parts):
+                    if pi and r.random() < getattr(spec, "midloss", 0):
+                        # the connection goes down while the update is half delivered (a capture / expect may be waiting)
+                        clean = r.random() < .5
+                        spec.events.append(("lose", clean))
+                        note("lose-clean" if clean else "lose-error", v.lose(clean))
+                        lost = True
+                        break
                     if pi and getattr(spec, "midfire", False) and v.reactor.getDelayedCalls() and r.random() < .6:
                         # a timer fires while the update is half delivered (a capture may start mid-update)
                         nxt = min(v.reactor.getDelayedCalls(), key=lambda c: c.getTime())
@@ -331,6 +339,8 @@ def drive(r, spec, respond="random", faults=None, max_steps=80):
                         note("timeout" if name == "error" else ("stop" if name == "stop" else "timer"), tk, t)
                     spec.events.append(("recv", part))
                     note("recv", v.feed(part))
+                if lost:
+                    break
         # after the script: the connection goes down (vncdo closed it, so the transport reports a clean close)
         flat = [t for e in res["events"] for t in e[1]]
         if "close" in flat and not any(e[0].startswith("lose") for e in res["events"]) and v.reactor.stopped_at is None:
@@ -354,6 +364,13 @@ def drive(r, spec, respond="random", faults=None, max_steps=80):
             t, tk = v.fire()
             spec.events.append(("fire",))
             note("timeout" if name == "error" else ("stop" if name == "stop" else "timer"), tk, t)
+        # a script that has not finished must be waiting for SOMETHING: a timer, or a completed update (the waiter).
+        # connection up, commands left, nothing scheduled, nobody listening for updates = it can never finish
+        flat = [t for e in res["events"] for t in e[1]]
+        res["stalled"] = bool("close" not in flat and not any(e[0].startswith("lose") for e in res["events"])
+                              and not any(t.startswith("chainfailed") or t.startswith("raise:") for t in flat)
+                              and v.reactor.stopped_at is None and not v.reactor.getDelayedCalls() and v.proto.deferred is None
+                              and "made" in flat)
         res["zlog"] = v.zlog
         res["screen"] = screen_rgb(v.proto)
         res["final_status"] = v.status()
